@@ -82,6 +82,22 @@ type Client struct {
 	Violations []string // protocol sanity violations observed by the delta client
 	Stats      map[string]int
 
+	// EDSFirst makes the next Connect send the EDS request for retained names before the CDS request
+	// (the order in which Envoy's requests may reach the server on a reconnect, envoy#13009).
+	EDSFirst bool
+	// CoalesceEDSAck (SotW, meaningful with EDSFirst): the ACK of an EDS response that arrives before the stream's
+	// first CDS response is held back and coalesced with the EDS request that follows the CDS response — Envoy
+	// pauses EDS discovery requests while a CDS update is applied and on resume sends ONE request carrying the
+	// latest nonce and the current name list. The first EDS request the server sees after the CDS request is then
+	// the re-subscription itself (possibly with a different name set), not a plain ACK.
+	CoalesceEDSAck bool
+	heldEDSAck     bool
+	// warming: EDS-type clusters that a CDS response created or changed and for which no
+	// ClusterLoadAssignment has arrived since. Envoy keeps such a cluster (and, at start-up, everything
+	// behind it) in warming until the endpoints arrive; istio configures no EDS initial_fetch_timeout.
+	warming         map[string]bool
+	forceEDSRequest bool
+
 	sotw  *xdsshim.SotwStream
 	delta *xdsshim.DeltaStream
 
@@ -95,7 +111,7 @@ type Client struct {
 func New(name string, node *corev3.Node, delta bool) *Client {
 	c := &Client{Name: name, Node: node, Delta: delta,
 		held: map[string]map[string]*anypb.Any{}, versions: map[string]map[string]string{}, lastVer: map[string]string{}, lastNonce: map[string]string{},
-		subscribed: map[string]map[string]bool{}, opened: map[string]bool{}, responses: map[string]int{}, Stats: map[string]int{}}
+		subscribed: map[string]map[string]bool{}, opened: map[string]bool{}, responses: map[string]int{}, Stats: map[string]int{}, warming: map[string]bool{}}
 	for _, t := range Types {
 		c.held[t] = map[string]*anypb.Any{}
 		c.versions[t] = map[string]string{}
@@ -114,6 +130,7 @@ func (c *Client) Connect(ds *xds.DiscoveryServer, fault Fault, staleNonce bool) 
 	c.mu.Lock()
 	c.fault = fault
 	c.sends, c.applied = 0, 0
+	c.heldEDSAck = false
 	c.opened = map[string]bool{}
 	c.responses = map[string]int{}
 	c.connected = true
@@ -139,7 +156,17 @@ func (c *Client) Connect(ds *xds.DiscoveryServer, fault Fault, staleNonce bool) 
 	c.mu.Lock()
 	defer c.mu.Unlock()
 	first := true
-	for _, t := range Types {
+	order := Types
+	if c.EDSFirst && len(c.subscribed[EDS]) > 0 {
+		order = []string{EDS}
+		for _, t := range Types {
+			if t != EDS {
+				order = append(order, t)
+			}
+		}
+		c.Stats["connects_eds_before_cds"]++
+	}
+	for _, t := range order {
 		if (t == EDS || t == RDS) && len(c.subscribed[t]) == 0 {
 			continue
 		}
@@ -335,6 +362,7 @@ func (c *Client) applySotw(r *discovery.DiscoveryResponse) {
 	c.responses[t]++
 	c.Stats["responses_"+Short(t)]++
 	c.lastVer[t], c.lastNonce[t] = r.VersionInfo, r.Nonce
+	prevCDS := c.held[CDS]
 	switch t {
 	case CDS, LDS: // the response is the complete set
 		c.held[t] = map[string]*anypb.Any{}
@@ -346,14 +374,40 @@ func (c *Client) applySotw(r *discovery.DiscoveryResponse) {
 			c.held[t][xdsshim.ResourceName(a)] = a
 		}
 	}
+	warmedNow := false
+	switch t {
+	case CDS:
+		warmedNow = c.noteClusters(prevCDS)
+	case EDS:
+		for _, a := range r.Resources {
+			delete(c.warming, xdsshim.ResourceName(a))
+		}
+	}
 	ack := func() { c.ackSotw(t) }
+	if t == EDS && c.CoalesceEDSAck && c.opened[CDS] && c.responses[CDS] == 0 {
+		ack = func() {
+			c.heldEDSAck = true
+			c.Stats["eds_acks_held_until_cds_response"]++
+		}
+	}
 	if c.cutIfDue(ack) {
 		return
 	}
 	ack()
 	switch t {
 	case CDS:
-		c.resubscribe(EDS, edsNames(c.held[CDS]))
+		if warmedNow {
+			// a new or changed EDS cluster starts a new EDS subscription: Envoy sends an EDS request even when the
+			// name list is unchanged (it then looks like an ACK to the server)
+			c.forceEDSRequest = true
+		}
+		sent := c.resubscribe(EDS, edsNames(c.held[CDS]))
+		if c.heldEDSAck {
+			c.heldEDSAck = false
+			if !sent && len(c.subscribed[EDS]) > 0 {
+				c.ackSotw(EDS) // nothing to coalesce with: the held ACK goes out as it is
+			}
+		}
 	case LDS:
 		c.resubscribe(RDS, rdsNames(c.held[LDS]))
 	}
@@ -369,7 +423,12 @@ func (c *Client) ackSotw(t string) {
 
 // resubscribe aligns the EDS/RDS subscription with what the parent resources reference and
 // drops resources that are no longer referenced.
-func (c *Client) resubscribe(t string, want map[string]bool) {
+// resubscribe reports whether a request was sent.
+func (c *Client) resubscribe(t string, want map[string]bool) bool {
+	force := false
+	if t == EDS {
+		force, c.forceEDSRequest = c.forceEDSRequest && !c.Delta && len(want) > 0, false
+	}
 	cur := c.subscribed[t]
 	var add, del []string
 	for n := range want {
@@ -389,10 +448,19 @@ func (c *Client) resubscribe(t string, want map[string]bool) {
 		}
 	}
 	if len(add) == 0 && len(del) == 0 && c.opened[t] {
-		return
+		if force {
+			c.Stats["eds_requests_for_warming_clusters_with_unchanged_names"]++
+			nonce := ""
+			if c.responses[t] > 0 {
+				nonce = c.lastNonce[t]
+			}
+			c.sotw.Request(&discovery.DiscoveryRequest{TypeUrl: t, VersionInfo: c.lastVer[t], ResponseNonce: nonce, ResourceNames: sortedKeys(want)})
+			return true
+		}
+		return false
 	}
 	if len(add) == 0 && len(del) == 0 && len(want) == 0 {
-		return
+		return false
 	}
 	sort.Strings(add)
 	sort.Strings(del)
@@ -406,7 +474,7 @@ func (c *Client) resubscribe(t string, want map[string]bool) {
 		}
 		c.opened[t] = true
 		c.delta.Request(r)
-		return
+		return true
 	}
 	c.opened[t] = true
 	// SotW: the full list with the last nonce seen on this stream (empty list = unsubscribe)
@@ -415,6 +483,7 @@ func (c *Client) resubscribe(t string, want map[string]bool) {
 		nonce = c.lastNonce[t]
 	}
 	c.sotw.Request(&discovery.DiscoveryRequest{TypeUrl: t, VersionInfo: c.lastVer[t], ResponseNonce: nonce, ResourceNames: sortedKeys(want)})
+	return true
 }
 
 // ---------------------------------------------------------------------------------------
@@ -429,10 +498,20 @@ func (c *Client) applyDelta(r *discovery.DeltaDiscoveryResponse) {
 	c.Stats["responses_"+Short(t)]++
 	c.lastNonce[t] = r.Nonce
 	inRes := map[string]bool{}
+	var prevCDS map[string]*anypb.Any
+	if t == CDS {
+		prevCDS = map[string]*anypb.Any{}
+		for n, a := range c.held[CDS] {
+			prevCDS[n] = a
+		}
+	}
 	for _, res := range r.Resources {
 		inRes[res.Name] = true
 		c.held[t][res.Name] = res.Resource
 		c.versions[t][res.Name] = res.Version
+		if t == EDS {
+			delete(c.warming, res.Name)
+		}
 	}
 	for _, n := range r.RemovedResources {
 		if inRes[n] {
@@ -446,6 +525,9 @@ func (c *Client) applyDelta(r *discovery.DeltaDiscoveryResponse) {
 	}
 	if len(r.RemovedResources) > 0 {
 		c.Stats["delta_responses_with_removals"]++
+	}
+	if t == CDS {
+		c.noteClusters(prevCDS)
 	}
 	if Trace {
 		var ns []string
@@ -465,6 +547,38 @@ func (c *Client) applyDelta(r *discovery.DeltaDiscoveryResponse) {
 	case LDS:
 		c.resubscribe(RDS, rdsNames(c.held[LDS]))
 	}
+}
+
+// noteClusters updates the warming set after a CDS response was applied: an EDS-type cluster that is new
+// to this client or whose configuration changed starts warming; clusters that are gone stop mattering.
+// It reports whether some cluster started warming.
+func (c *Client) noteClusters(prev map[string]*anypb.Any) bool {
+	cur := edsNames(c.held[CDS])
+	for n := range c.warming {
+		if !cur[n] {
+			delete(c.warming, n)
+		}
+	}
+	started := false
+	for n := range cur {
+		old, had := prev[n]
+		if !had || !proto.Equal(old, c.held[CDS][n]) {
+			if !c.warming[n] {
+				c.Stats["clusters_started_warming"]++
+			}
+			c.warming[n] = true
+			started = true
+		}
+	}
+	return started
+}
+
+// Warming returns the EDS clusters that a CDS response created or changed and that have not been given a
+// ClusterLoadAssignment since (sorted).
+func (c *Client) Warming() []string {
+	c.mu.Lock()
+	defer c.mu.Unlock()
+	return sortedKeys(c.warming)
 }
 
 // ---------------------------------------------------------------------------------------
